@@ -545,7 +545,7 @@ func ParseFieldSelector(selector string) []string {
 
 		if len(selector) > pos+1 {
 			if selector[pos+1] == '.' {
-				tail = selector[:pos+1]
+				tail = tail + selector[:pos+1]
 				selector = selector[pos+2:]
 				continue
 			}
